@@ -168,6 +168,13 @@ def mon_c01(case):
             return step, "unreadable snapshot"
         hdr, lists, wf, _ = p
         caps, rescap = list_caps(kind, hdr)
+        # the sizes the cache works with are the configured ones (the case header carries what was asked for)
+        cfg = case.get("cfg") or []
+        want = {1: lambda c: [c[0], c[1]], 3: lambda c: [c[0]], 4: lambda c: [c[0], c[2], c[1]]}.get(kind)
+        if want and len(cfg) >= 3 - (kind in (1, 3)) - (kind == 3):
+            w = want(cfg)
+            if list(hdr[:len(w)]) != w:
+                return step, f"the cache works with the segment sizes {list(hdr[:len(w)])}, configured were {w} ({', '.join(names[:len(w)])})"
         for nm, l, c in zip(names, lists, caps):
             if len(l) > c:
                 return step, f"partition {nm} holds {len(l)} entries, bound {c}"
